@@ -77,13 +77,15 @@ Definition C14_fragment_statement : Prop :=
   /\ mutable_unsafe effects = expected_mutable_unsafe
   /\ classes_ok effects expected_raises = true
   (* the operands nodes_ leaves out are exactly the known ones (recomputed from pypika/terms.py on every run) *)
-  /\ nodes_gaps nodes_coverage = expected_nodes_gaps.
+  /\ nodes_gaps nodes_coverage = expected_nodes_gaps
+  (* every term class votes in resolve_is_aggregate as expected (abstain / False / True / computed) *)
+  /\ is_aggregate_table = expected_is_aggregate_table.
 
 Theorem C14_on_fragment : C14_fragment_statement.
 Proof.
   split; [exact C14_guards_hold|].
   split; [vm_compute; reflexivity|]. split; [vm_compute; reflexivity|]. split; [vm_compute; reflexivity|].
-  split; vm_compute; reflexivity.
+  split; [vm_compute; reflexivity|]. split; vm_compute; reflexivity.
 Qed.
 Print Assumptions C14_on_fragment.
 
@@ -278,6 +280,15 @@ Example C14_example_returning_joins :
   hist_ok (fun s c => wf_q s c && frag_q s c) step_q (q_init QPostgres) calls = true
   /\ snd (run step_q (q_init QPostgres) calls) = [None; None; None; None; None; None; None; Some QueryExc; Some QueryExc; None].
 Proof. vm_compute. split; reflexivity. Qed.
+
+(* an abstaining operand (interval literal, parameter, wrapped value: RConst) next to an aggregate leaves the term an
+   aggregate -- rejected; a literal that votes False (NULL, CURRENT_DATE: an analytic-like leaf) makes it a non-aggregate *)
+Example C14_example_returning_abstainers :
+  let mx := RFn FAgg [RField (Some ta) "d"] in
+  snd (run step_q ins_a [QReturning [RArith mx RConst]; QReturning [RArith RConst mx]; QReturning [RFn FPlain [RArith mx RConst]];
+                         QReturning [RArith mx (RFn FAnalytic [])]; QReturning [RArith RConst RConst]; QReturning [RConst]])
+  = [Some QueryExc; Some QueryExc; Some QueryExc; None; None; None].
+Proof. vm_compute. reflexivity. Qed.
 
 Example C14_example_returning :
   let t1 := RFn FPlain [RFn FAgg [RField (Some ta) "x"]; RConst] in     (* COALESCE(SUM(a.x), 0): aggregate *)
